@@ -325,7 +325,7 @@ func main() {
 		ID:    "C16",
 		Level: "exploration",
 		Race:  true,
-		Rule: "exh: all 8×4×4×4 combinations of body kind (ok / fails by return / fails by append and keeps running / fails at the 2nd command / nested task ok / nested task fails / nested try whose body fails / nested try whose finally fails) and success, fail, finally handler kind (absent / ok / fails by return / fails by append), each through the terminal service and through the application's argument list; " +
+		Rule: "exh: all 9×4×4×4 combinations of body kind (ok / fails by return / fails by append and keeps running / fails at the 2nd command / nested task ok / nested task fails / nested try whose body fails / nested try whose finally fails / nested task in a sandbox whose Run only returns an error) and success, fail, finally handler kind (absent / ok / fails by return / fails by append), each through the terminal service and through the application's argument list; " +
 			"rand: random pip:try programs (1–3 body commands failing at any position, nested pip:run tasks and nested tries, handlers of 1–2 commands, holds) run on a context of their own, on the application's context, 2–4 at the same time, from the argument list and from a terminal script; " +
 			"refuse: finally failed before the other handler is submitted (verif hook, scripted); orphan: the same inside a nested try (verif hook, nap); witness: the recorded minimal programs of C16-F1. " +
 			"distinct = distinct (driver, program text); non-trivial = at least one handler has to run",
@@ -358,7 +358,7 @@ func main() {
 			return ""
 		},
 		Exhaustive: func(tier string) string {
-			return "all 8 body kinds × 4³ handler kinds × 2 drivers (program structure; holds are seeded)"
+			return "all 9 body kinds × 4³ handler kinds × 2 drivers (program structure; holds are seeded)"
 		},
 	})
 }
